@@ -1,0 +1,212 @@
+//go:build verif
+
+package parser
+
+// Verification hooks (build tag `verif` only; add-only, no existing line changes).
+// Each function drives the REAL unexported line recogniser, where necessary through a real
+// text.Reader / parse Context, and returns plain values for the differential harness
+// (/verif component `linerec`, Lean model GM.Model.LineRec).
+
+import (
+	"github.com/yuin/goldmark/ast"
+	"github.com/yuin/goldmark/text"
+	"github.com/yuin/goldmark/util"
+)
+
+// verifReader returns a reader over source, advanced by `advance` bytes and then given `padding`
+// virtual columns (the state a container parser leaves behind for its children).
+func verifReader(source []byte, advance, padding int) text.Reader {
+	r := text.NewReader(source)
+	if advance > 0 || padding > 0 {
+		r.AdvanceAndSetPadding(advance, padding)
+	}
+	return r
+}
+
+// VerifReaderState reports the reader state the other hooks start from.
+func VerifReaderState(source []byte, advance, padding int) (line []byte, start, pad, lineOffset int) {
+	r := verifReader(source, advance, padding)
+	l, seg := r.PeekLine()
+	return l, seg.Start, seg.Padding, r.LineOffset()
+}
+
+// VerifIsThematicBreak exposes isThematicBreak.
+func VerifIsThematicBreak(line []byte, offset int) bool {
+	return isThematicBreak(line, offset)
+}
+
+// VerifParseListItem exposes parseListItem (typ: 0 notList, 1 bullet, 2 ordered).
+func VerifParseListItem(line []byte) ([6]int, int) {
+	m, typ := parseListItem(line)
+	return m, int(typ)
+}
+
+// VerifMatchesListItem exposes matchesListItem.
+func VerifMatchesListItem(line []byte, strict bool) ([6]int, int) {
+	m, typ := matchesListItem(line, strict)
+	return m, int(typ)
+}
+
+// VerifCalcListOffset exposes calcListOffset.
+func VerifCalcListOffset(source []byte, match [6]int) int {
+	return calcListOffset(source, match)
+}
+
+// VerifLastOffset exposes lastOffset on a list whose items have the given offsets.
+func VerifLastOffset(offsets []int) int {
+	list := ast.NewList('-')
+	for _, o := range offsets {
+		list.AppendChild(list, ast.NewListItem(o))
+	}
+	return lastOffset(list)
+}
+
+// VerifMatchesSetextHeadingBar exposes matchesSetextHeadingBar.
+func VerifMatchesSetextHeadingBar(line []byte) (byte, bool) {
+	return matchesSetextHeadingBar(line)
+}
+
+// VerifListOpen drives listParser.Open on a one-line reader. If afterParagraph, the last opened
+// block is a paragraph that is a child of the parent (the paragraph-interruption rules apply).
+func VerifListOpen(line []byte, afterParagraph bool) (ok bool, marker byte, start int, ordered bool) {
+	pc := NewContext()
+	parent := ast.NewDocument()
+	if afterParagraph {
+		p := ast.NewParagraph()
+		parent.AppendChild(parent, p)
+		pc.SetOpenedBlocks([]Block{{Node: p, Parser: NewParagraphParser()}})
+	}
+	node, _ := defaultListParser.Open(parent, text.NewReader(line), pc)
+	if node == nil {
+		return false, 0, 0, false
+	}
+	l := node.(*ast.List)
+	return true, l.Marker, l.Start, l.IsOrdered()
+}
+
+// VerifListItemOpen drives listItemParser.Open below a list whose last item has offset lastOff
+// (lastOff < 0: a list without items). Reports the new item's Offset, whether children follow and the
+// reader position afterwards.
+func VerifListItemOpen(source []byte, advance, padding, lastOff int) (ok bool, offset int, hasChildren bool, start, pad int) {
+	pc := NewContext()
+	list := ast.NewList('-')
+	if lastOff >= 0 {
+		list.AppendChild(list, ast.NewListItem(lastOff))
+	}
+	r := verifReader(source, advance, padding)
+	node, st := defaultListItemParser.Open(list, r, pc)
+	_, seg := r.Position()
+	if node == nil {
+		return false, 0, false, seg.Start, seg.Padding
+	}
+	return true, node.(*ast.ListItem).Offset, st&HasChildren != 0, seg.Start, seg.Padding
+}
+
+// VerifATXOpen drives atxHeadingParser.Open (no attribute option) with Context.BlockOffset = blockOffset.
+// The content segment is reported relative to the start of the line.
+func VerifATXOpen(line []byte, blockOffset int) (ok bool, level int, hasContent bool, start, stop int) {
+	pc := NewContext()
+	pc.SetBlockOffset(blockOffset)
+	r := text.NewReader(line)
+	_, seg := r.PeekLine()
+	node, _ := NewATXHeadingParser().Open(ast.NewDocument(), r, pc)
+	if node == nil {
+		return false, 0, false, 0, 0
+	}
+	h := node.(*ast.Heading)
+	if h.Lines().Len() == 0 {
+		return true, h.Level, false, 0, 0
+	}
+	s := h.Lines().At(0)
+	return true, h.Level, true, s.Start - seg.Start, s.Stop - seg.Start
+}
+
+// VerifFenceOpen drives fencedCodeBlockParser.Open with Context.BlockOffset = blockOffset and reports
+// the recorded fence data and the info segment (relative to the line).
+func VerifFenceOpen(line []byte, blockOffset int) (ok bool, char byte, indent, length int, hasInfo bool, infoStart, infoStop int) {
+	pc := NewContext()
+	pc.SetBlockOffset(blockOffset)
+	r := text.NewReader(line)
+	node, _ := defaultFencedCodeBlockParser.Open(ast.NewDocument(), r, pc)
+	if node == nil {
+		return false, 0, 0, 0, false, 0, 0
+	}
+	fd := pc.Get(fencedCodeBlockInfoKey).(*fenceData)
+	info := node.(*ast.FencedCodeBlock).Info
+	if info == nil {
+		return true, fd.char, fd.indent, fd.length, false, 0, 0
+	}
+	return true, fd.char, fd.indent, fd.length, true, info.Segment.Start, info.Segment.Stop
+}
+
+// VerifFenceContinueCloses drives fencedCodeBlockParser.Continue for an open fence (char, indent, length)
+// and reports whether the line closed the block.
+func VerifFenceContinueCloses(source []byte, advance, padding int, char byte, indent, length int) bool {
+	pc := NewContext()
+	node := ast.NewFencedCodeBlock(nil)
+	pc.Set(fencedCodeBlockInfoKey, &fenceData{char, indent, length, node})
+	r := verifReader(source, advance, padding)
+	st := defaultFencedCodeBlockParser.Continue(node, r, pc)
+	return st&Continue == 0
+}
+
+// VerifBlockquoteProcess drives blockquoteParser.process and reports the reader state afterwards.
+func VerifBlockquoteProcess(source []byte, advance, padding int) (ok bool, start, pad, lineOffset int, view []byte) {
+	r := verifReader(source, advance, padding)
+	ok = defaultBlockquoteParser.process(r)
+	view, seg := r.PeekLine()
+	return ok, seg.Start, seg.Padding, r.LineOffset(), view
+}
+
+// VerifCodeBlockOpen drives codeBlockParser.Open and reports whether an indented code block opened.
+func VerifCodeBlockOpen(source []byte, advance, padding int) bool {
+	r := verifReader(source, advance, padding)
+	node, _ := defaultCodeBlockParser.Open(ast.NewDocument(), r, NewContext())
+	return node != nil
+}
+
+// VerifCodeBlockContinue drives codeBlockParser.Continue: true when the block continues on this line.
+func VerifCodeBlockContinue(source []byte, advance, padding int) bool {
+	r := verifReader(source, advance, padding)
+	node := ast.NewCodeBlock()
+	st := defaultCodeBlockParser.Continue(node, r, NewContext())
+	return st&Continue != 0
+}
+
+// VerifOpenLine drives parser.openBlocks on the reader's current line with exactly one registered block
+// parser (which: "thematic", "atx", "fence", "code"; anything else: none) and reports the block
+// offset/indent openBlocks published in the Context and the kind of the node opened (or "").
+func VerifOpenLine(which string, source []byte, advance, padding int) (blockOffset, blockIndent int, opened string, level int) {
+	p := &parser{}
+	var bp BlockParser
+	switch which {
+	case "thematic":
+		bp = NewThematicBreakParser()
+	case "atx":
+		bp = NewATXHeadingParser()
+	case "fence":
+		bp = NewFencedCodeBlockParser()
+	case "code":
+		bp = NewCodeBlockParser()
+	}
+	if bp != nil {
+		p.addBlockParser(util.Prioritized(bp, 100), nil)
+		for i := range p.blockParsers {
+			if p.blockParsers[i] != nil {
+				p.blockParsers[i] = append(p.blockParsers[i], p.freeBlockParsers...)
+			}
+		}
+	}
+	pc := NewContext()
+	parent := ast.NewDocument()
+	r := verifReader(source, advance, padding)
+	p.openBlocks(parent, false, r, pc)
+	blockOffset, blockIndent = pc.BlockOffset(), pc.BlockIndent()
+	if c := parent.FirstChild(); c != nil {
+		opened = c.Kind().String()
+		if h, ok := c.(*ast.Heading); ok {
+			level = h.Level
+		}
+	}
+	return
+}
